@@ -146,3 +146,34 @@ Definition pinv_rcm_example_stmt : Prop :=
   /\ tab_mx 4 4 (fmulmx gz0 gzadd gzmul 4 (perm_full ex_perm ex_perm (fid gz0 gz1)) Q') = tab_mx 4 4 Q'.
 Lemma pinv_rcm_example : pinv_rcm_example_stmt.
 Proof. by vm_compute. Qed.
+
+(* ---------------------------------------------------- solver result dispatch *)
+Lemma solve_dispatch_iterative x c y :
+  solve_dispatch (STup x [:: c]) = SRet y -> c = 0%Z /\ y = x.
+Proof.
+rewrite /solve_dispatch; case E: (Z.eqb c 0); last by case: (Z.ltb 0 c).
+by case=> <-; split=> //; apply/Z.eqb_eq.
+Qed.
+
+Lemma solve_dispatch_iterative_raises x c :
+  c <> 0%Z -> exists k, solve_dispatch (STup x [:: c]) = SRaiseTol k \/
+                        solve_dispatch (STup x [:: c]) = SRaiseBad k.
+Proof.
+move=> /Z.eqb_neq E; rewrite /solve_dispatch E.
+by exists c; case: (Z.ltb 0 c); [left|right].
+Qed.
+
+Lemma solve_dispatch_payload r y : solve_dispatch r = SRet y ->
+  match r with SArr x => y = x | STup x _ => y = x end.
+Proof.
+case: r => [x|x [|c [|d rest]]] /=; try by case.
+by case: (Z.eqb c 0); [case|case: (Z.ltb 0 c)].
+Qed.
+
+Definition solve_dispatch_example_stmt : Prop :=
+  [/\ solve_dispatch (STup 7 [:: 0%Z]) = SRet 7,
+      solve_dispatch (STup 7 [:: 3%Z]) = SRaiseTol 3,
+      solve_dispatch (STup 7 [:: (-10)%Z]) = SRaiseBad (-10)
+    & solve_dispatch (STup 7 [:: 7%Z; 200%Z; 1%Z]) = SRet 7 /\ solve_dispatch (SArr 5) = SRet 5].
+Lemma solve_dispatch_example : solve_dispatch_example_stmt.
+Proof. by []. Qed.
